@@ -146,3 +146,44 @@ func VC03_SignedIsWellFormed() {
 	vsym.AssertBytesEq(vSpecStream(w), vSpecStream(v), "signing does not change the specification digest")
 	vsym.Reach("end")
 }
+
+// VC03_SignVerify (shipped test image, signature model): after signing, serialising and re-parsing,
+// the image verifies against every certificate that signed it — also after a further signature is
+// appended — and against no certificate that did not; re-parsing reports the digest from before
+// signing; each signature embeds that digest.
+func VC03_SignVerify() {
+	img := vsym.Fixture("authenticode/testdata/test.pecoff")
+	k1, k2, k3 := vsym.Signer("k1"), vsym.Signer("k2"), vsym.Signer("k3")
+	s1, s2, s3 := vsym.BytesN("serial1", 2), vsym.BytesN("serial2", 2), vsym.BytesN("serial3", 2)
+	vsym.Assume(vsym.And(s1[0] != 0, s2[0] != 0, s3[0] != 0))
+	c1, c2, c3 := vsym.Cert(k1, s1), vsym.Cert(k2, s2), vsym.Cert(k3, s3)
+	p, err := Parse(bytes.NewReader(img))
+	vsym.Assert(err == nil, "fixture parses")
+	d0 := p.Hash(crypto.SHA256)
+	blob1, err := p.Sign(k1, c1)
+	vsym.Assert(err == nil, "first signing succeeds")
+	q, err := Parse(bytes.NewReader(p.Bytes()))
+	vsym.Assert(err == nil, "signed image parses")
+	vsym.AssertBytesEq(q.Hash(crypto.SHA256), d0, "re-parsing reports the digest from before signing")
+	ok1, _ := q.Verify(c1)
+	ok2, _ := q.Verify(c2)
+	vsym.Assert(ok1, "verifies against the certificate that signed it")
+	vsym.Assert(!ok2, "does not verify against a certificate that did not sign it")
+	a1, aerr := ParseAuthenticode(blob1)
+	vsym.Assert(aerr == nil, "the signature parses as Authenticode")
+	vsym.AssertBytesEq(a1.Digest, d0, "the signature embeds the image digest")
+	// a further signature by another key, on the re-parsed image
+	_, err = q.Sign(k2, c2)
+	vsym.Assert(err == nil, "second signing succeeds")
+	r, err := Parse(bytes.NewReader(q.Bytes()))
+	vsym.Assert(err == nil, "doubly signed image parses")
+	vsym.AssertBytesEq(r.Hash(crypto.SHA256), d0, "the digest is still the one from before signing")
+	o1, _ := r.Verify(c1)
+	o2, _ := r.Verify(c2)
+	o3, _ := r.Verify(c3)
+	vsym.Assert(o1 && o2, "verifies against both signers after a further signature")
+	vsym.Assert(!o3, "and against no certificate that did not sign")
+	sigs, _ := r.Signatures()
+	vsym.Assert(len(sigs) == 2, "two WIN_CERTIFICATE entries")
+	vsym.Reach("end")
+}
